@@ -132,6 +132,7 @@ theorem c05_noNone_deser (XO : XOracles) (opts : DeserOpts) (x : XDecl) (h : xNo
   | mapStr x => exact ⟨.typeErr, by simp [deserX, PyVal.isNone, dMap], rfl⟩
   | tuplePos xs => exact ⟨.valueErr, by simp [deserX, PyVal.isNone, dSeq, docSeq], rfl⟩
   | struct c fields => exact ⟨.typeErr, by simp [deserX, PyVal.isNone, dClassRef], rfl⟩
+  | structU c fields => exact ⟨.typeErr, by simp [deserX, PyVal.isNone, dClassRef], rfl⟩
 
 theorem c05_noNone_validate (XO : XOracles) (x : XDecl) (h : xNoNone x = true) :
     ∃ e, validateX XO x .none = .error e ∧ xOutside e = false := by
@@ -160,6 +161,7 @@ theorem c05_noNone_validate (XO : XOracles) (x : XDecl) (h : xNoNone x = true) :
   | mapStr x => exact ⟨.typeErr, by simp [validateX, vMap], rfl⟩
   | tuplePos xs => exact ⟨.typeErr, by simp [validateX, vTuple], rfl⟩
   | struct c fields => exact ⟨.typeErr, by simp [validateX, vClassRef], rfl⟩
+  | structU c fields => exact ⟨.typeErr, by simp [validateX, vClassRef], rfl⟩
 
 theorem rtx_opt_none (XO : XOracles) (opts : DeserOpts) (x : XDecl) (h : xNoNone x = true) :
     RTX XO opts (.opt x) .none := by
@@ -396,6 +398,9 @@ theorem c05_deserX_rejects_kind (XO : XOracles) (opts : DeserOpts) (x : XDecl) (
   | struct c fields =>
     cases j <;> simp [acceptsDocX, docKind] at h
     all_goals exact ⟨.typeErr, by simp [deserX, PyVal.isNone, dClassRef], rfl⟩
+  | structU c fields =>
+    cases j <;> simp [acceptsDocX, docKind] at h
+    all_goals exact ⟨.typeErr, by simp [deserX, PyVal.isNone, dClassRef], rfl⟩
 
 /-! ### the round trip -/
 
@@ -495,6 +500,7 @@ theorem xround_trip (XO : XOracles) (opts : DeserOpts) : ∀ (x : XDecl) (v : Py
       · simp only [deserX, PyVal.isNone, Bool.false_and, Bool.false_eq_true, if_false]; exact this.2.2.1
       · simp only [validateX]; exact this.2.2.2
     | _ => simp at h
+  | .structU _ _, _, h => by simp [xFrag] at h
   | .struct c fields, v, h => by
     simp only [xFrag, and_true_iff] at h
     obtain ⟨⟨hacc, hnd⟩, hv⟩ := h
